@@ -814,6 +814,11 @@ func (d *msgpackDecDriver[T]) readContainerLen(ct msgpackContainerType) (clen in
 		clen = int(bigen.Uint16(d.r.readn2()))
 	} else if bd == ct.b32 {
 		clen = int(bigen.Uint32(d.r.readn4()))
+		if clen < 0 {
+			// 32-bit int: a length >= 2^31 does not fit, and -2^31 equals the containerLenNil
+			// sentinel (no depth accounting, and the element loop runs until EOF)
+			halt.errorf("container length overflows int: %d", uint32(clen))
+		}
 	} else if (ct.bFixMin & bd) == ct.bFixMin {
 		clen = int(ct.bFixMin ^ bd)
 	} else {
